@@ -769,12 +769,18 @@ pub fn generate_code(context: &Context) -> Result<u32, &'static str>
             },
         };
 
-        context.cache_next_reference_id(cachable_reference_id, context.config.config_dir.as_str());
+        let lock_file_written = context
+            .cache_next_reference_id(cachable_reference_id, context.config.config_dir.as_str());
 
         info!(
             "[ref: 21] Num. inserted reference(s): {}",
             reference_updates.num_inserted_references
         );
+
+        if !lock_file_written
+        {
+            return Err("Failed to write the lock file");
+        }
     }
     else
     {
